@@ -102,6 +102,10 @@ func run(c *vf.Ctx) {
 		{"send w64 p16 two chunks each", sp{Window: 64, MaxPacket: 16, AdjustUnit: 5, Writers: []ssh.VerifC35Writer{W(0, 40, 40), W(1, 0, 33)}}, 1 + bound/3},
 		{"send w32 p16 two chunks", sp{Window: 32, MaxPacket: 16, AdjustUnit: 5, Writers: []ssh.VerifC35Writer{W(0, 20, 13), W(1, 0, 17)}}, bound},
 		{"send w0-initial then adjust", sp{Window: 0, Credit: 7, MaxPacket: 32, Writers: []ssh.VerifC35Writer{W(0, 10)}}, bound},
+		// one WINDOW_ADJUST has to serve two blocked writers: nothing comes back afterwards
+		// (a real receiver only adjusts once its window has fallen below its threshold)
+		{"send w0 then ONE adjust for two blocked writers, no window returned", sp{Window: 0, Credit: 64, NoReturn: true, MaxPacket: 32, Writers: []ssh.VerifC35Writer{W(0, 10), W(1, 10)}}, bound},
+		{"send w12 two writers 10B+10B then one adjust, no window returned", sp{Window: 12, Credit: 40, NoReturn: true, MaxPacket: 9, Writers: []ssh.VerifC35Writer{W(0, 10, 3), W(1, 10)}}, bound},
 	}
 	if c.Thorough {
 		sends = append(sends, struct {
